@@ -28,7 +28,7 @@ import (
 
 // Value describes a body value handed to SetBodyParam (not a reader).
 type Value struct {
-	Kind string            `json:"kind"` // str | bytes | map | list | doc | int | stringer | textm | binm
+	Kind string            `json:"kind"` // str | bytes | map | list | doc | int | stringer | textm | binm | nilmap | nillist | nildoc
 	S    kit.BStr          `json:"s,omitempty"`
 	M    map[string]string `json:"m,omitempty"`
 	L    []string          `json:"l,omitempty"`
@@ -79,6 +79,12 @@ func (v Value) Build() interface{} {
 		return textM{string(v.S)}
 	case "binm":
 		return binM{string(v.S)}
+	case "nilmap": // typed nils are values: a producer encodes them (JSON: null) (r9)
+		return map[string]string(nil)
+	case "nillist":
+		return []string(nil)
+	case "nildoc":
+		return (*doc)(nil)
 	}
 	return string(v.S)
 }
